@@ -92,6 +92,11 @@ pub fn c07_prefix_case(ctx: &Ctx, env: &RealEnv, dir: &Path, case: u64, seed: u6
         let mut h = hist.clone();
         h.push(J::obj().with("log-truncated-to", J::i(n)).with("complete_build_records", J::i(k)).with("started", J::strs(o2.started())).with("exit", o2.exit.map(J::i).unwrap_or(J::Null)));
         let mk = |o: &ROut| J::obj().with("case", J::i(case)).with("project", pb.to_json()).with("history", J::Arr(h.clone())).with("trace", o.trace_json());
+        if let Some(tool) = sanitizer_report(&o2) {
+            rep.violation(&format!("sanitizer-report:{}", tool), &String::from_utf8_lossy(&o2.stderr).chars().take(1500).collect::<String>(), mk(&o2));
+            n += step;
+            continue;
+        }
         if o2.timed_out {
             rep.inconclusive.push(format!("case {}: timeout at prefix {}", case, n));
             n += step;
@@ -204,6 +209,10 @@ pub fn c12_process_case(ctx: &Ctx, env: &RealEnv, dir: &Path, case: u64, seed: u
     rep.count(&format!("process_{}", what), 1);
     let so = String::from_utf8_lossy(&out.stdout).into_owned();
     let mk = || J::obj().with("case", J::i(case)).with("kind", J::s(what)).with("manifest", J::bytes(&manifest)).with("targets", J::strs(inv.targets.iter().cloned())).with("trace", out.trace_json()).with("stderr", J::bytes(&out.stderr[..out.stderr.len().min(600)]));
+    if let Some(tool) = sanitizer_report(&out) {
+        rep.violation(&format!("sanitizer-report:{}", tool), &String::from_utf8_lossy(&out.stderr).chars().take(1500).collect::<String>(), mk());
+        return;
+    }
     if out.timed_out {
         rep.violation("does-not-terminate", "n2 still running after 30 s on a tiny input", mk());
         return;
